@@ -22,7 +22,7 @@ def _mk():
 
     def b_len(it, a, k, n):
         v = a[0]
-        if isinstance(v, (tuple, list, dict, str, Shape, range)):
+        if isinstance(v, (tuple, list, dict, str, Shape, range, set, frozenset)):
             return len(v)
         if isinstance(v, A._DictItems):
             return len(v.items)
@@ -142,6 +142,27 @@ def _mk():
             raise Unsupported("list() of non-concrete")
         return list(s)
 
+    def b_set(it, a, k, n):
+        if not a:
+            return set()
+        s_ = it.concrete_iter(a[0])
+        if s_ is None:
+            raise Unsupported("set() of non-concrete iterable")
+        return A.make_set(s_)
+
+    def b_dir(it, a, k, n):
+        v = a[0]
+        if isinstance(v, ModV):
+            return sorted(v.info.names())
+        if isinstance(v, ExtV):
+            from . import torchnames
+
+            if v.name == "torch":
+                return sorted(torchnames.torch_names())
+            if v.name == "torch.nn.functional":
+                return sorted(torchnames.f_names())
+        return Unknown("dir() of an unmodelled object")
+
     def b_dict(it, a, k, n):
         d: Dict[Any, Any] = {}
         if a:
@@ -229,6 +250,9 @@ def _mk():
             if short == "BuiltinFunctionType":
                 return is_builtin_ext(v.name)
             if short == "FunctionType":
+                last = v.name.rsplit(".", 1)[-1]
+                if last[:1].isupper() or v.name in ("torch", "torch.nn.functional", "sys", "math"):
+                    return False  # classes / modules / typing constructs
                 return not is_builtin_ext(v.name)
             return None
         if isinstance(v, Unknown):
@@ -326,6 +350,8 @@ def _mk():
         v = a[0]
         if isinstance(v, (FuncV, ClassV, ExtV, Bound, B)):
             return True
+        if isinstance(v, Obj) and v.attrs.get("_callable"):
+            return True
         if isinstance(v, (TV, Obj, Unknown)):
             return T("callable", (A._term(v),))
         return False
@@ -369,7 +395,7 @@ def _mk():
     table = {
         "len": b_len, "sum": b_sum, "prod": b_prod, "min": b_minmax("min"), "max": b_minmax("max"),
         "abs": b_abs, "pow": b_pow, "float": b_float, "int": b_int, "bool": b_bool,
-        "tuple": b_tuple, "list": b_list, "dict": b_dict, "range": b_range, "set": b_tuple,
+        "tuple": b_tuple, "list": b_list, "dict": b_dict, "range": b_range, "set": b_set, "dir": b_dir,
         "frozenset": b_tuple, "isinstance": b_isinstance, "getattr": b_getattr, "hasattr": b_hasattr,
         "setattr": b_setattr, "reversed": b_reversed, "zip": b_zip, "enumerate": b_enumerate,
         "sorted": b_sorted, "str": b_str, "repr": b_str, "type": b_type, "callable": b_callable,
